@@ -66,6 +66,7 @@ ApiClauses(e) ==
                         /\ Len(q.pidx) = Len(q.pixels)
                         /\ \A k \in DOMAIN q.pidx : c.px[q.pidx[k] + 1] = q.pixels[k])>>,
      <<"defaultIndex", All(e.obs.q, LAMBDA q : q.pidx0 = [k \in 1..Len(q.pixels) |-> k - 1])>>,
+     <<"pixelIndex:joined", All(e.obs.q, LAMBDA q : ~Has(q, "pidx_joined") \/ q.pidx_joined = q.pidx)>>,
      \* join=True: every stored record of the window with the coordinates of its own two bins, in storage order
      <<"joinedPixels", All(e.obs.q, LAMBDA q : ~Has(q, "joined") \/
           LET px == PixelsInWindow(c, q.w)
@@ -113,6 +114,11 @@ BalClauses(e) ==
      <<"noDuplicate",  All(e.obs.q, LAMBDA q : NoDuplicate([k \in DOMAIN q.sparse |-> <<q.sparse[k][1], q.sparse[k][2]>>]))>>,
      <<"denseExact",   All(e.obs.q, LAMBDA q : ShapeOK(q.dense, q.w) /\ q.dense = BalancedDense(c, q.w, W, d))>>,
      <<"pixelsExact",  All(e.obs.q, LAMBDA q : q.pixels = BalancedPixelRecords(c, q.w, W, d))>>,
+     \* with the labels kept (ignore_index=False): the same records, each labelled with its storage row number
+     <<"pixelsExact:labelled", All(e.obs.q, LAMBDA q :
+          /\ q.pixels_labelled = q.pixels
+          /\ Len(q.pidx) = Len(q.pixels)
+          /\ \A k \in DOMAIN q.pidx : c.px[q.pidx[k] + 1] = <<q.pixels[k][1], q.pixels[k][2], q.pixels[k][3]>>)>>,
      <<"drift:applyWeights", All(e.obs.q, LAMBDA q :
           Range(Abs(q.sparse, q.w)) = Range(ApplyWeights(SetToSeq(SubBlockRecords(c, q.w)), q.w, W, d)))>> >>
 \* rq.missing: asking for a weight column that does not exist must be an error
